@@ -172,6 +172,23 @@ EvBad ==
            THEN {} ELSE {"C13"})
   /\ UNCHANGED <<b, g, met, owed, lost, imported, src, known>>
 
+(* C06 / C03 over HTTP: a follow stream scoped to one context (GET /?follow&tail or                *)
+(* GET /head/{topic}?follow) that was open while E.appended were appended                           *)
+EvFollowProbe ==
+  /\ Is("followprobe")
+  /\ LET got == {E.res[j].id : j \in 1..Len(E.res)}
+         want == {E.appended[j].id : j \in {j \in 1..Len(E.appended) :
+                      /\ E.appended[j].ctx = E.ctx
+                      /\ (E.route = "head" => E.appended[j].topic = E.topic)}}
+     IN Judge((IF E.status # 200 THEN {"C13"} ELSE {})
+              \cup (IF \E j \in 1..Len(E.res) : E.res[j].ctx # E.ctx THEN {"C06"} ELSE {})
+              \cup (IF E.route = "head" /\ \E j \in 1..Len(E.res) : E.res[j].topic # E.topic THEN {"C05", "C13"} ELSE {})
+              \cup (IF ~(want \subseteq got) THEN {"C03", "C13"} ELSE {})
+              \* (the first line of head --follow is the current head, which may be an imported frame with any id)
+              \cup (IF \E a, c \in (IF E.route = "head" THEN 2 ELSE 1)..Len(E.res) : a < c /\ E.res[a].id >= E.res[c].id
+                    THEN {"C03", "C13"} ELSE {}))
+  /\ UNCHANGED <<b, g, met, owed, lost, imported, src, known>>
+
 (* a panic inside the code under test, or a store that does not open any more, is an  *)
 (* observation no behaviour of the specification explains                              *)
 EvPanic ==
@@ -188,12 +205,12 @@ EvCrash ==
 EvOther ==
   /\ l <= Len(Rec)
   /\ E.e \notin {"reset", "append", "import", "remove", "tick", "read", "get", "head", "dump", "drain",
-                 "reopen", "xfer_begin", "xfer_end", "panic", "crash", "bad"}
+                 "reopen", "xfer_begin", "xfer_end", "panic", "crash", "bad", "followprobe"}
   /\ l' = l + 1
   /\ UNCHANGED <<b, g, met, owed, lost, imported, src, bad, known>>
 
 Next == Reset \/ EvAppend \/ EvImport \/ EvRemove \/ EvTick \/ EvRead \/ EvGet \/ EvHead \/ EvDump
-        \/ EvDrain \/ EvReopen \/ EvXferBegin \/ EvXferEnd \/ EvPanic \/ EvCrash \/ EvBad \/ EvOther
+        \/ EvDrain \/ EvReopen \/ EvXferBegin \/ EvXferEnd \/ EvPanic \/ EvCrash \/ EvBad \/ EvFollowProbe \/ EvOther
 
 Spec == Init /\ [][Next]_tvars
 
